@@ -208,6 +208,19 @@ class CtlScn:
                 gw.exit()
                 res["wait"] = io.wait()
                 res["sub_alive"] = sub.alive
+            elif P["op"] == "wait-slow-exit":
+                # the proxied process takes its time to go away (a non-daemon thread finishing its work):
+                # wait() returns when the process has gone, however long that takes, like a direct popen
+                ch.send(None)
+                gw.remote_exec("em = channel.gateway.execmodel\ndef linger():\n    em.sleep(%r)\nem.start_nondaemon(linger)" % P["linger"]).waitclose(10)
+                t0 = w.now
+                gw.exit()
+                try:
+                    res["wait"] = io.wait()
+                except BaseException as e:  # noqa: BLE001
+                    res["wait"] = f"{type(e).__name__}: {e}"
+                res["waited"] = round(w.now - t0, 2)
+                res["sub_alive"] = sub.alive
             S.ctx["res"] = res
             S.ctx["done"] = True
             S.group.terminate(timeout=2.0)
@@ -363,6 +376,10 @@ def run(tier: str, only=None) -> int:
         if only and "ctl" not in only:
             continue
         harness.run_exploration(rep, PID, f"ctl/{op}", CtlScn, {"op": op}, {"ps": 0, "free": 0}, max_execs=100)
+    for linger in (0.5, 2.0, 4.0, 8.0, 30.0, 120.0):
+        if only and "ctl" not in only:
+            continue
+        harness.run_exploration(rep, PID, f"ctl/wait-slow-exit:{linger}", CtlScn, {"op": "wait-slow-exit", "linger": linger}, {"ps": 0, "free": 0}, max_execs=100, horizon=200000)
     for prog, stuck in (("echo", False), ("subchannel", True), ("error", False)):
         if only and "nested" not in only:
             continue
